@@ -9,7 +9,7 @@ from .values import *
 BUILTINS = {"len", "int", "float", "range", "min", "max", "abs", "round", "sum", "zip", "enumerate",
             "isinstance", "dict", "list", "tuple", "str", "bool", "complex", "sorted", "set", "getattr",
             "callable", "print", "all", "any", "super", "type", "hasattr", "ValueError", "TypeError",
-            "RuntimeError", "KeyError", "AttributeError", "NotImplementedError", "Exception", "reversed", "map", "slice", "IndexError", "ZeroDivisionError"}
+            "RuntimeError", "KeyError", "AttributeError", "NotImplementedError", "Exception", "reversed", "map", "slice", "IndexError", "ZeroDivisionError", "dir", "vars", "id"}
 
 KIND.setdefault("pi", "pos")
 KIND.setdefault("inf", "pos")
@@ -190,6 +190,17 @@ def compare(interp, op, a, b, node):
         return pv_apply(f, a, b)
     if is_opaque(a): return a
     if is_opaque(b): return b
+    if isinstance(a, tuple) and isinstance(b, tuple) and isinstance(op, (ast.Eq, ast.NotEq)) and all(isinstance(e, X) for e in a + b):
+        # shapes: tuples of (symbolic) extents compare element-wise
+        if len(a) != len(b): r = False
+        else:
+            r = True
+            for x, y in zip(a, b):
+                e = scal_compare(ast.Eq(), x, y, text)
+                if e is False: r = False; break
+                if e is not True: r = None
+            if r is None: return Opaque("comparison of shapes")
+        return r if isinstance(op, ast.Eq) else (not r)
     if isinstance(a, Masked): a = a.as_arr()
     if isinstance(b, Masked): b = b.as_arr()
     if isinstance(a, PV) or isinstance(b, PV):
